@@ -72,7 +72,12 @@ def replay_unit(mod, rec):
         mod.worker_init()
     found = []
     for _ in range(2):
-        res = mod.run_unit(rec["unit"])
+        try:
+            res = mod.run_unit(rec["unit"])
+        except Exception as e:      # noqa: BLE001
+            res = explore.library_crash(mod, rec["unit"], e)
+            if res is None:
+                raise
         found.append(sorted((v["what"], v["digest"])
                             for v in res.get("violations", [])
                             if v["digest"] == rec["digest"]
